@@ -2,6 +2,8 @@
 parse loop and the real bracket counter (kept apart from c04.py: it is run by C04 as R04.l)."""
 from __future__ import annotations
 
+from sa.core import pool_repo as core_pool_repo, pmap as core_pmap  # noqa: E402
+
 import itertools
 
 from sa.core import AnalysisError
@@ -14,7 +16,7 @@ def _l_job(args):
     from sa.absint import Evaluator, Loose, Obj, Raised, Record
     from sa.core import Repo
 
-    repo = Repo(root)
+    repo = core_pool_repo(root)
     m = repo.mod(SHEET)
     fn = m.get('CSSStyleSheet._setCssText')
     log = Record(error=lambda *a, **k: None, warn=lambda *a, **k: None, info=lambda *a, **k: None, debug=lambda *a, **k: None)
@@ -121,8 +123,7 @@ def r04l(chk, rid='R04.l', thorough=False):
     groups = ('x', 'f(', '(', '[', '@foo', '@top-left', '@import', '@charset ', '@namespace')
     maxlen = 5 if thorough else 4
     ctx = mp.get_context('fork')
-    with ctx.Pool(len(groups)) as pool:
-        res = pool.map(_l_job, [(chk.repo.root, g, maxlen) for g in groups])
+    res = core_pmap(chk.repo, _l_job, [(chk.repo.root, g, maxlen) for g in groups], len(groups))
     total = sum(c for _, c, _ in res)
     if total < 500:
         raise AnalysisError(f'only {total} statements enumerated')
@@ -175,7 +176,7 @@ def _m_job(args):
     from sa.absint import Evaluator, Raised, Record
     from sa.core import Repo
 
-    repo = Repo(root)
+    repo = core_pool_repo(root)
     m = repo.mod(UTIL)
     fn = m.get('Base._tokensupto2')
     if mode not in [a.arg for a in fn.args.args]:
@@ -212,8 +213,7 @@ def r04m(chk, rid='R04.m', thorough=False):
 
     maxlen = 4 if thorough else 3
     ctx = mp.get_context('fork')
-    with ctx.Pool(len(MODES)) as pool:
-        res = pool.map(_m_job, [(chk.repo.root, mode, maxlen) for mode in MODES])
+    res = core_pmap(chk.repo, _m_job, [(chk.repo.root, mode, maxlen) for mode in MODES], len(MODES))
     total = sum(c for _, c, _ in res)
     if total < 1500:
         raise AnalysisError(f'only {total} mode cases enumerated')
